@@ -362,7 +362,83 @@ static int pastend(const char *name, bool has_end) {
   out.begin("PastEnd").s("coder", name).b("has_end", has_end).b("first_ok", v == 21 && b).i("nonzero", ones).i("reads", total).end();
   return 0;
 }
+
+// systematic past-the-end sweep for the readers that have an end: write k bits, read j of them back, then ask for w more bits so that
+// the request starts inside the stored data and extends beyond it (word-straddling reads).  Every such request must fail or yield
+// zeros for the part that was never written, and never touch memory outside the buffer (ASan).
+template <class Enc, class Dec>
+static int sweep(const char *name, int maxw) {
+  long long bad = 0, reads = 0;
+  for (int k = 1; k <= 70; ++k)
+    for (int j = 0; j <= k; j += (k > 40 ? 7 : 1))
+      for (int w = 1; w <= maxw; w += (w < 4 ? 1 : 5)) {
+        EncoderBuffer eb;
+        Enc enc;
+        enc.StartEncoding();
+        for (int b = 0; b < k; ++b) enc.EncodeLeastSignificantBits32(1, 1);   // all ones: anything read past the end that is not zero shows
+        enc.EndEncoding(&eb);
+        // copy the block into an exactly-sized heap buffer so that ASan sees any access behind it
+        std::vector<char> exact(eb.data(), eb.data() + eb.size());
+        DecoderBuffer db;
+        db.Init(exact.data(), exact.size());
+        db.set_bitstream_version(0x0202);
+        Dec dec;
+        if (!dec.StartDecoding(&db)) { ++bad; continue; }
+        for (int b = 0; b < j; ++b) { uint32_t x = 0; dec.DecodeLeastSignificantBits32(1, &x); }
+        // drain whatever is left (at most k values / k bits plus the padding of the last word) with requests of width w: these are the
+        // reads that start inside the stored data and run over its end
+        for (int rep = 0; rep < 80; ++rep) {
+          uint32_t x = 0;
+          dec.DecodeLeastSignificantBits32(w, &x);
+          ++reads;
+        }
+        // everything that was written has been consumed: further reads must fail or yield zeros
+        for (int rep = 0; rep < 3; ++rep) {
+          uint32_t x = 0, y = 0;
+          dec.DecodeLeastSignificantBits32(32 > maxw ? maxw : 32, &x);
+          dec.DecodeLeastSignificantBits32(w, &y);
+          if (x != 0 || y != 0) ++bad;
+          ++reads;
+        }
+      }
+  out.begin("PastEnd").s("coder", name).b("has_end", true).b("first_ok", true).i("nonzero", bad).i("reads", reads).end();
+  return 0;
+}
+static int sweep_buffer() {
+  long long bad = 0, reads = 0;
+  for (int k = 1; k <= 70; ++k)
+    for (int j = 0; j <= k; ++j)
+      for (int w = 1; w <= 32; w += 3) {
+        EncoderBuffer eb;
+        eb.StartBitEncoding(k, false);
+        for (int b = 0; b < k; ++b) eb.EncodeLeastSignificantBits32(1, 1);
+        eb.EndBitEncoding();
+        std::vector<char> exact(eb.data(), eb.data() + eb.size());
+        DecoderBuffer db;
+        db.Init(exact.data(), exact.size());
+        db.set_bitstream_version(0x0202);
+        uint64_t sz;
+        db.StartBitDecoding(false, &sz);
+        uint32_t x = 0;
+        for (int b = 0; b < j; ++b) db.DecodeLeastSignificantBits32(1, &x);
+        for (int rep = 0; rep < 80; ++rep) { uint32_t y = 0; db.DecodeLeastSignificantBits32(w, &y); ++reads; }
+        for (int rep = 0; rep < 3; ++rep) {
+          uint32_t y = 0xFFFFFFFFu;
+          const bool ok = db.DecodeLeastSignificantBits32(w, &y);
+          ++reads;
+          if (ok && y != 0) ++bad;
+        }
+        db.EndBitDecoding();
+        uint8_t byte;
+        if (db.Decode(&byte)) ++bad;     // nothing may be left to read
+      }
+  out.begin("PastEnd").s("coder", "buffer").b("has_end", true).b("first_ok", true).i("nonzero", bad).i("reads", reads).end();
+  return 0;
+}
 static int run_pastend(const char *c) {
+  if (!strcmp(c, "sweep_direct")) return sweep<DirectBitEncoder, DirectBitDecoder>("direct", 32);
+  if (!strcmp(c, "sweep_symbol")) return sweep<SymbolBitEncoder, SymbolBitDecoder>("symbol", 18);
+  if (!strcmp(c, "sweep_buffer")) return sweep_buffer();
   if (!strcmp(c, "rans")) return pastend<RAnsBitEncoder, RAnsBitDecoder>("rans", false);
   if (!strcmp(c, "adaptive")) return pastend<AdaptiveRAnsBitEncoder, AdaptiveRAnsBitDecoder>("adaptive", false);
   if (!strcmp(c, "direct")) return pastend<DirectBitEncoder, DirectBitDecoder>("direct", true);
